@@ -24,6 +24,7 @@ type HandlerResult struct {
 	Panics       int
 	X            *Explorer
 	AbortOrigins map[string]int // error origins of the aborting paths
+	AbortOuts    []*Outcome     // the aborting outcomes themselves (facts, returned error)
 	deltas       map[*Outcome][]ColDelta
 	nonneg       map[string]bool // loop atoms proven non-negative by induction
 }
@@ -82,6 +83,7 @@ func RunE1(m *Model) *E1 {
 				h.Outs = append(h.Outs, o)
 			default:
 				h.Aborts++
+				h.AbortOuts = append(h.AbortOuts, o)
 				if idx := errResultIndex(fn.Signature); idx >= 0 && idx < len(o.Rets) {
 					if ev, ok := o.Rets[idx].(*ErrV); ok {
 						h.AbortOrigins[ev.Origin]++
